@@ -67,13 +67,16 @@ func VerifH_C01C12_Hover_Concrete() {
 	d := verifDecoder(verifSchemaS1(), map[string]*hcl.File{"test.tf": f})
 	b := verifInt("byte", 0, 9)
 	pos := hcl.Pos{Line: 1, Column: b + 1, Byte: b}
-	verifFreeze()
-	hd, err := d.HoverAtPos(context.Background(), "test.tf", pos)
-	if err == nil && hd != nil {
-		verifAssert(hd.Content.Value != "", "C12:content")
-		verifAssert(verifAnd(hd.Range.Start.Byte <= pos.Byte, pos.Byte <= hd.Range.End.Byte), "C12:contains")
-	}
-	verifNoWrites("C04/C05:hover", false)
+	verifFreeze(d.pathCtx)
+	verifQuery(func() {
+		hd, err := d.HoverAtPos(context.Background(), "test.tf", pos)
+		if err == nil && hd != nil {
+			verifAssert(hd.Content.Value != "", "C12:content")
+			verifAssert(verifAnd(hd.Range.Start.Byte <= pos.Byte, pos.Byte <= hd.Range.End.Byte), "C12:contains")
+		}
+	})
+	verifNoWrites("C04:hover", true)
+	verifNoWrites("C05:hover", false)
 	verifReach("end")
 }
 
@@ -83,13 +86,16 @@ func VerifH_C01C02C12_Hover_S1() {
 	f := verifStretch(src, "test.tf", D, 0)
 	d := verifDecoder(verifSchemaS1(), map[string]*hcl.File{"test.tf": f})
 	pos := verifAnyPos("test.tf")
-	verifFreeze()
-	hd, err := d.HoverAtPos(context.Background(), "test.tf", pos)
-	if err == nil && hd != nil {
-		verifAssert(hd.Content.Value != "", "C12:content")
-		verifAssert(verifRealRange("test.tf", hd.Range), "C02:hover-range")
-		verifAssert(verifAnd(hd.Range.Start.Byte <= pos.Byte, pos.Byte <= hd.Range.End.Byte), "C12:contains")
-	}
-	verifNoWrites("C04/C05:hover", false)
+	verifFreeze(d.pathCtx)
+	verifQuery(func() {
+		hd, err := d.HoverAtPos(context.Background(), "test.tf", pos)
+		if err == nil && hd != nil {
+			verifAssert(hd.Content.Value != "", "C12:content")
+			verifAssert(verifRealRange("test.tf", hd.Range), "C02:hover-range")
+			verifAssert(verifAnd(hd.Range.Start.Byte <= pos.Byte, pos.Byte <= hd.Range.End.Byte), "C12:contains")
+		}
+	})
+	verifNoWrites("C04:hover", true)
+	verifNoWrites("C05:hover", false)
 	verifReach("end")
 }
